@@ -12,6 +12,9 @@ structure Desc where
   kind : Char
   attr : String
   val : String
+  /-- schema list of the descriptor: "s0" any credential; "s1" / "s2" a REQUIRED degree entry behind / in front of the
+      entry every credential satisfies; "s3" both entries, none required -/
+  schema : String := "s0"
 deriving Repr
 
 structure Cred where
@@ -26,7 +29,10 @@ inductive SR where
 
 def parseDesc (s : String) : Option Desc :=
   match s.splitOn "/" with
-  | [id, g, k, a, v] => some ⟨id, if g == "-" then [] else g.toList, k.toList.headD 'e', a, v⟩
+  | [id, g, k, a, v] => some ⟨id, if g == "-" then [] else g.toList, k.toList.headD 'e', a, v, "s0"⟩
+  | [id, g, k, a, v, sch] =>
+    if sch == "s1" || sch == "s2" || sch == "s3" then some ⟨id, if g == "-" then [] else g.toList, k.toList.headD 'e', a, v, sch⟩
+    else none
   | _ => none
 
 def parseCred (s : String) : Option Cred :=
@@ -104,7 +110,13 @@ def filterPasses (kind : Char) (val v : String) : Bool :=
   | 'm' => (match v.toNat?, val.toNat? with | some x, some m => x ≥ m | _, _ => false)
   | _ => false
 
+/-- `filterSchema`: at least one schema of the list is satisfied and every REQUIRED one is — whatever their order.
+    Degree credentials are the ones whose id starts with `g`. -/
+def schemaOk (d : Desc) (c : Cred) : Bool :=
+  if d.schema == "s1" || d.schema == "s2" then c.id.startsWith "g" else true
+
 def credMatches (d : Desc) (c : Cred) : Bool :=
+  schemaOk d c &&
   -- upper case kinds: the filter sits on an OPTIONAL field (absent is fine, present must pass), next to the required
   -- field "attribute a0 exists"
   if d.kind == 'C' || d.kind == 'P' || d.kind == 'M' then
